@@ -101,7 +101,7 @@ def strtokSeq (reent : Bool) (m : Mem) (base : Nat) :
     List Arg → Option Nat → List String → Option (Mem × String)
   | [], _, acc => some (m, String.intercalate "," acc.reverse)
   | Arg.call s d :: rest, save, acc =>
-      match strtok_r m s d save FUEL with
+      match (if reent then strtok_r m s d save FUEL else strtok m s d save FUEL) with
       | none => none
       | some (m, save, r) => strtokSeq reent m base rest save (showPtr base r :: acc)
   | _ :: _, _, _ => none
